@@ -10,3 +10,20 @@ func c20parse(src string) (evs []c20ev) {
 	p.ParseTest(context.Background(), &l)
 	return
 }
+
+func c20parseAfter(prev, src string) (evs []c20ev) {
+	var l Lexer
+	var p Parser
+	on := false
+	p.Init(func(t NodeType, flags NodeFlags, offset, endoffset int) {
+		if on {
+			evs = append(evs, c20ev{int(t), offset, endoffset})
+		}
+	})
+	l.Init(prev)
+	p.ParseTest(context.Background(), &l)
+	on = true
+	l.Init(src)
+	p.ParseTest(context.Background(), &l)
+	return
+}
